@@ -148,6 +148,10 @@ enum WOutcome {
     PushPanic,
     CloseErr,
     Complete,
+    /// close() returned Ok after a push had panicked on the same (still present) fault
+    CompleteAfterPushPanic,
+    /// a retried close() returned Ok after the first close() had failed on the same fault
+    CompleteAfterCloseErr,
 }
 
 /// Run the writer program once; returns the outcome and whether close() reported success.
@@ -165,13 +169,23 @@ fn run_writer(w: &WriterSpec, path: &PathBuf) -> WOutcome {
                 }
             });
             if pushed.is_err() {
-                // documented: push may panic from I/O errors; dropping the writer must not panic on top of that
+                // documented: push may panic from I/O errors. The fault is still in place: a close() after the caught panic
+                // (and a retried close()) must not report success either; dropping the writer must not panic on top of that.
+                let c1 = catch(|| writer.close().is_ok());
+                let c2 = catch(|| writer.close().is_ok());
                 let _ = catch(move || drop(writer));
-                return WOutcome::PushPanic;
+                return if c1 == Ok(true) || (c1 == Ok(false) && c2 == Ok(true)) { WOutcome::CompleteAfterPushPanic } else { WOutcome::PushPanic };
             }
             match writer.close() {
                 Ok(()) => WOutcome::Complete,
-                Err(_) => WOutcome::CloseErr,
+                Err(_) => {
+                    // a retried close() under the same fault must not turn into success
+                    if writer.close().is_ok() {
+                        WOutcome::CompleteAfterCloseErr
+                    } else {
+                        WOutcome::CloseErr
+                    }
+                }
             }
         }
         WriterSpec::Raw(header, buf, pushes) => {
@@ -190,13 +204,21 @@ fn run_writer(w: &WriterSpec, path: &PathBuf) -> WOutcome {
                 }
             });
             if pushed.is_err() {
+                let c1 = catch(|| writer.close_with_header(&mut header.clone()).is_ok());
+                let c2 = catch(|| writer.close_with_header(&mut header.clone()).is_ok());
                 let _ = catch(move || drop(writer));
-                return WOutcome::PushPanic;
+                return if c1 == Ok(true) || (c1 == Ok(false) && c2 == Ok(true)) { WOutcome::CompleteAfterPushPanic } else { WOutcome::PushPanic };
             }
             let mut h2 = header.clone();
             match writer.close_with_header(&mut h2) {
                 Ok(()) => WOutcome::Complete,
-                Err(_) => WOutcome::CloseErr,
+                Err(_) => {
+                    if writer.close_with_header(&mut header.clone()).is_ok() {
+                        WOutcome::CompleteAfterCloseErr
+                    } else {
+                        WOutcome::CloseErr
+                    }
+                }
             }
         }
     }
@@ -207,7 +229,7 @@ impl Prop for C14 {
     const ID: &'static str = "C14";
     const LEVEL: &'static str = "fault_enumeration";
     const ISOLATE: bool = true; // RLIMIT_FSIZE is process wide: every case runs in a single-threaded worker process
-    const RULE: &'static str = "for each generated structure of any Serialize type (up to a few KiB): (a) load from EVERY strict byte prefix (every byte up to 3000 bytes, element boundaries +-1 beyond) through a reader that also returns short reads must be Err (no panic, no value); (b) for optional values skip_option on every strict prefix must be Err; (c) serialize into a sink that fails after EVERY budget 0..size-1 must return the sink's own error having written a prefix of the true bytes; (d) mapped views of the file truncated at every element boundary must be refused; (e) IntVectorWriter/RawVectorWriter programs under EVERY RLIMIT_FSIZE value 0..=size+8: outcome must be constructor Err, documented push panic, or close Err whenever the file is incomplete, and close()==Ok implies byte-identical to the in-memory serialization. Non-trivial: a fault point beyond the first element; distinct by (structure bytes, fault kind, point).";
+    const RULE: &'static str = "for each generated structure of any Serialize type (up to a few KiB): (a) load from EVERY strict byte prefix (every byte up to 3000 bytes, element boundaries +-1 beyond) through a reader that also returns short reads must be Err (no panic, no value); (b) for optional values skip_option on every strict prefix must be Err; (c) serialize into a sink that fails after EVERY budget 0..size-1 must return the sink's own error having written a prefix of the true bytes; (d) mapped views of the file truncated at every element boundary must be refused; (e) IntVectorWriter/RawVectorWriter programs under EVERY RLIMIT_FSIZE value 0..=size+8: outcome must be constructor Err, documented push panic, or close Err whenever the file is incomplete, close()==Ok implies byte-identical to the in-memory serialization, and a close() that follows a caught push panic or a failed close() under the same limit must not report success for an incomplete file. Non-trivial: a fault point beyond the first element; distinct by (structure bytes, fault kind, point).";
 
     fn cases(tier: Tier) -> u32 {
         tier.pick(700, 8000)
@@ -348,6 +370,10 @@ impl Prop for C14 {
                 let on_disk = std::fs::read(&path).unwrap_or_default();
                 let complete = on_disk == expected;
                 *outcomes.entry(format!("{:?}", outcome)).or_insert(0) += 1;
+                if (outcome == WOutcome::CompleteAfterPushPanic || outcome == WOutcome::CompleteAfterCloseErr) && !complete {
+                    failure = Some(Fail::new("writer.success-after-reported-failure", format!("writer {:?}: under a file size limit of {} bytes a write failure was reported first, but a following close() returned Ok although the file ({} bytes) is not the complete serialization ({} bytes): {:?}", abbreviate_writer(w), limit, on_disk.len(), expected.len(), outcome)));
+                    break;
+                }
                 if outcome == WOutcome::Complete && !complete {
                     failure = Some(Fail::new("writer.success-on-incomplete-file", format!("writer {:?}: close() returned Ok under a file size limit of {} bytes but the file ({} bytes) is not the complete serialization ({} bytes)", abbreviate_writer(w), limit, on_disk.len(), expected.len())));
                     break;
